@@ -56,6 +56,14 @@ def tag_rules(F, rep, tag, gen, rule="R-TAG"):
                 rep.bad(rule, ik, "the union is not built by a call taking the tagged word", F.loc(b), tag)
                 continue
             e = symx.expr(F, B, o["term"]["args"][0])
+            # (a private constructor that applies the tag itself - `Self::new(untagged, TAG)` - is judged by the word it stores)
+            ck = atomics.callee_of(o["term"])
+            if ck in F.bodies and not balance.is_api(F, F.body(ck)) and len(o["term"]["args"]) > 1:
+                whole = symx.normalize_calls(F, symx.fn_value(F, b), lambda k: not balance.is_api(F, F.body(k)))
+                while whole[0] in ("bb", "addr"):
+                    whole = whole[-1] if whole[0] == "bb" else whole[1]
+                if whole[0] == "agg" and whole[1] == "adt" and whole[2] == F.handle_paths.get("ArcUnion") and whole[4]:
+                    e = whole[4][0]
             # find the into_raw leaf
             leaves = []
             _collect_calls(e, leaves)
@@ -387,6 +395,13 @@ def _returns_same_word(F, key):
         while e[0] in ("bb", "addr"):
             e = e[-1] if e[0] == "bb" else e[1]
         if e[0] == "call" and (F.body(e[1]) or {}).get("name") == "new" and F.handle_name((F.body(e[1]).get("impl") or {}).get("self_ty", -1)) == "ArcUnion" and e[3]:
+            if len(e[3]) > 1:
+                # a private constructor that assembles the word from several parts (`new(untagged, tag)`): what it stores
+                r = symx.inline_call(F, e)
+                if r is not None:
+                    e = r
+                    continue
+                return False
             e = e[3][0]
             break
         if e[0] == "agg" and e[1] == "adt" and e[2] == F.handle_paths.get("ArcUnion") and e[4]:
@@ -395,6 +410,8 @@ def _returns_same_word(F, key):
         return False
     bits = F.pointer_bits
     for P in SAMPLES:
+        if P >= (1 << bits):
+            continue
         for tagbit in (0, 1):
             w = P | tagbit
             if symx.eval_int(e, union_word_leaf(w), bits) != w:
